@@ -92,6 +92,35 @@ def sites():
                               ("tcp4", "tcp6"), ("udp4", "udp6")):
                     for m in re.finditer(r"self\.(" + a + r")\(\)", code):
                         out.append((f, i, m.start(1), m.end(1), b2, "accessor-swap"))
+            # integer types of decoded values narrowed / widened
+            for a, bs in (("u16", ["u8", "u32"]), ("u64", ["u32", "u128"]), ("u8", ["u16"]), ("usize", ["u16"])):
+                for m in re.finditer(r"\b" + a + r"\b(?=::decode|>\(|>::|\)|,| )", code):
+                    if code[:m.start()].count('"') % 2 == 1:
+                        continue
+                    for b2 in bs:
+                        out.append((f, i, m.start(), m.end(), b2, "int-type-" + a + "->" + b2))
+            # spelling of the names the format is made of
+            for lit, reps in (('b"id"', ['b"ID"']), ('b"v4"', ['b"v5"', 'b"V4"']), ('b"ip"', ['b"ip4"']), ('b"ip6"', ['b"ipv6"']),
+                              ('b"tcp"', ['b"tcp4"']), ('b"udp"', ['b"udp4"']), ('"secp256k1"', ['"secp256k"', '"Secp256k1"']),
+                              ('"ed25519"', ['"ed2551"', '"Ed25519"']), ('"enr:"', ['"enr"', '"ENR:"', '"enr::"']), ('"0x"', ['"0X"', '"x"'])):
+                k = code.find(lit)
+                if k >= 0:
+                    for r2 in reps:
+                        out.append((f, i, k, k + len(lit), r2, "literal"))
+            # iterator / slice adaptors
+            for pat, rep, name in ((r"\.skip\((\d+)\)", ".skip(0)", "skip->0"), (r"\.take\((\d+)\)", ".take(usize::MAX)", "take->all"),
+                                   (r"\.rev\(\)", "", "drop-rev"), (r"\.first\(\)", ".last()", "first->last"), (r"\.last\(\)", ".first()", "last->first"),
+                                   (r"\.saturating_sub\(", ".wrapping_sub(", "sat->wrap"), (r"\.to_ascii_lowercase\(\)", "", "drop-lowercase"),
+                                   (r"\.strip_prefix\(", ".strip_suffix(", "prefix->suffix"), (r"\.starts_with\(", ".ends_with(", "starts->ends"),
+                                   (r"\.trim_start_matches\(", ".trim_matches(", "trimstart->trim"), (r"\.get\(4\.\.\)", ".get(3..)", "slice-start"),
+                                   (r"URL_SAFE_NO_PAD", "URL_SAFE", "b64-engine-pad"), (r"URL_SAFE_NO_PAD", "STANDARD_NO_PAD", "b64-engine-std"),
+                                   (r"\.zeroize\(\)", ".len()", "drop-zeroize"), (r"\.clone\(\)\.", ".", None)):
+                if name is None:
+                    continue
+                for m in re.finditer(pat, code):
+                    if code[:m.start()].count('"') % 2 == 1:
+                        continue
+                    out.append((f, i, m.start(), m.end(), rep, name))
             # deleted validation statement
             if st.endswith("?;") and not st.startswith("let "):
                 out.append((f, i, 0, len(l), "", "delete-stmt"))
@@ -110,6 +139,10 @@ def sites():
             if ".max(" in code:
                 k = code.index(".max(")
                 out.append((f, i, k, k + 5, ".min(", "max->min"))
+    only = os.environ.get("MUT_ONLY")
+    if only:
+        pats = only.split(",")
+        out = [s for s in out if s is not None and any(s[5].startswith(p_) for p_ in pats)]
     return [s for s in out if s is not None]
 
 
